@@ -14,6 +14,9 @@ func init() {
 			*l = append(*l, &Job{Pkg: "", Func: "ZZ_C11_AfterClose", Args: []int64{2, (entry + arg) % 2, entry, arg, (entry + arg + 1) % 2}, Bounds: b})
 			thorough = append(thorough, &Job{Pkg: "", Func: "ZZ_C11_AfterClose", Args: []int64{1, (entry + arg + 1) % 2, entry, arg, 1}, Bounds: b})
 		}
+		// the parent context ends before Close (pre bit 1)
+		quick = append(quick, &Job{Pkg: "", Func: "ZZ_C11_AfterClose", Args: []int64{(entry % 2) * 2, entry % 2, entry, entry % 3, 2 + entry%2}, Bounds: b + "; the channel's parent context is cancelled before Close"})
+		thorough = append(thorough, &Job{Pkg: "", Func: "ZZ_C11_AfterClose", Args: []int64{((entry + 1) % 2) * 2, 1, entry, (entry + 1) % 3, 3 - entry%2}, Bounds: b + "; the channel's parent context is cancelled before Close"})
 		// Race: (q, until, entry, closeArg)
 		quick = append(quick, &Job{Pkg: "", Func: "ZZ_C11_Race", Args: []int64{1, entry % 2, entry, entry % 3}, Bounds: b})
 		thorough = append(thorough, &Job{Pkg: "", Func: "ZZ_C11_Race", Args: []int64{0, 0, entry, (entry + 1) % 3}, Bounds: b})
